@@ -63,9 +63,10 @@ def interp (j : Json) : Except String Json := do
     Json.arr ((fns.zip fills).map (fun (f, fl) => jOptQ (interpN eps ghost cc fl axes f p))).toArray)
   pure (Json.arr out.toArray)
 
-/-- {"kind":"interp"|"comp","eps","ghost","axes","vol":[flat],"data":[flat],"point":[..],"amount"}
--> null (DomainError) | {"data":[flat],"before":integral,"after":integral}; with "ghost":true (compiled
-inserter only) "data" is the padded array and the integrals are taken over its valid cells -/
+/-- {"kind":"interp"|"comp","eps","ghost","axes","vol":[flat],"data":[[flat component]..],"point":[..],
+"amount":[per component]} -> per component: null (DomainError) | {"data":[flat],"before":integral,
+"after":integral}; with "ghost":true (compiled inserter only) "data" is the padded array and the
+integrals are taken over its valid cells -/
 def insert (j : Json) : Except String Json := do
   let kind ← fldS j "kind"
   let eps ← fldQ j "eps"
@@ -75,18 +76,21 @@ def insert (j : Json) : Except String Json := do
   -- in ghost mode the data array is the padded one, the volumes are those of the valid cells
   let shape := if ghost then sizes.map (· + 2) else sizes
   let vol := arrFn sizes (← fldQs j "vol").toArray
-  let data := arrFn shape (← fldQs j "data").toArray
+  let comps ← getL (getL getQ) (← fld j "data")
   let p ← fldQs j "point"
-  let amount ← fldQ j "amount"
-  let r : Option (Idx → Rat) :=
-    if kind == "interp" then insertInterp axes vol data p amount
-    else insertCompN eps ghost axes vol data p amount
-  match r with
-  | none => pure Json.null
-  | some d =>
-    let inner : (Idx → Rat) → Idx → Rat := fun f c => if ghost then f (c.map (· + 1)) else f c
-    pure (Json.mkObj [("data", jQs ((cells shape).map d)),
-      ("before", jQ (integral sizes vol (inner data))), ("after", jQ (integral sizes vol (inner d)))])
+  let amounts ← fldQs j "amount"
+  let inner : (Idx → Rat) → Idx → Rat := fun f c => if ghost then f (c.map (· + 1)) else f c
+  let one : List Rat × Rat → Json := fun (flat, amount) =>
+    let data := arrFn shape flat.toArray
+    let r : Option (Idx → Rat) :=
+      if kind == "interp" then insertInterp axes vol data p amount
+      else insertCompN eps ghost axes vol data p amount
+    match r with
+    | none => Json.null
+    | some d =>
+      Json.mkObj [("data", jQs ((cells shape).map d)),
+        ("before", jQ (integral sizes vol (inner data))), ("after", jQ (integral sizes vol (inner d)))]
+  pure (Json.arr ((comps.zip amounts).map one).toArray)
 
 def handlers : List (String × Handler) :=
   [("c16.axis", axis), ("c16.interp", interp), ("c16.insert", insert)]
